@@ -22,6 +22,7 @@ TReset == /\ IsEv("reset") /\ version' = 0 /\ handles' = 1
 TSet == /\ IsEv("set") /\ handles > 0
         /\ Rec[l].tokio.r = "ok" /\ Same(Rec[l])          \* setting never fails, with or without subscribers
         /\ Rec[l].v = version + 1 /\ version' = version + 1
+        /\ Rec[l].tget = Rec[l].v /\ Rec[l].sget = Rec[l].v     \* State::get of that handle: the value just set
         /\ UNCHANGED <<handles, since, last, on, ended, once>>
 TClone == IsEv("clone_state") /\ handles' = handles + 1 /\ UNCHANGED <<version, since, last, on, ended, once>>
 TDropState == IsEv("drop_state") /\ handles' = handles - 1 /\ Rec[l].left = handles - 1
